@@ -46,7 +46,9 @@ def drawing_spec(draw, arcs=True, max_cells=4):
     cells = [draw(_tree(MAX_DEPTH, kinds)) for _ in range(ncell)]
     # 2e-6: control points of an arc are then ~1e-6 apart, below the absolute 1e-13 zero of util.unitize for their cross product
     size = draw(st.sampled_from([1.0] * 6 + [1e-3, 1e-3, 1e3, 1e3, 37.5, 37.5, 0.02, 0.02, 250.0, 2e-6]))
-    off = draw(st.sampled_from([[0.0, 0.0], [0.0, 0.0], [1.0, -2.0], [-3.0, 0.5], [2.5, 2.5]]))
+    # offset / size up to 1e6: a drawing made in place far from the origin keeps its own tolerances (Path.scale is the AABB
+    # diagonal, not the distance from the origin)
+    off = draw(st.sampled_from([[0.0, 0.0], [0.0, 0.0], [0.0, 0.0], [1.0, -2.0], [-3.0, 0.5], [2.5, 2.5], [300.0, -200.0], [-2e4, 1.5e4], [-2e4, 1.5e4], [1e6, 3e5]]))
     return {
         "seed": draw(st.integers(0, 2**31 - 1)),
         "size": size,
@@ -298,10 +300,10 @@ class Drawing:
         if kind == "circle":
             r = rs.uniform(r_lo, r_hi)
             a = np.sort(rs.uniform(0.0, 1.0, 2))
-            # three well separated points on the circle
+            # three control points anywhere on the circle, at least 0.3 rad apart
             t0 = a_start
-            t1 = t0 + (0.4 + 1.6 * a[0])
-            t2 = t1 + (0.4 + 1.6 * a[1])
+            t1 = t0 + 0.3 + (2 * math.pi - 0.9) * a[0]
+            t2 = t0 + 0.6 + (2 * math.pi - 0.9) * a[1]
             cur.circle = (np.array(centre), r)
             cur.nodes = np.array([_pol(centre, r, t) for t in (t0, t1, t2)])
             cur.mids = []
@@ -309,19 +311,22 @@ class Drawing:
         elif kind == "round":
             n = max(2, min(n, 7))
             r = rs.uniform(r_lo, r_hi)
-            ang = self._angles(n, a_start, rs, 0.7 if n > 3 else 0.4)
+            # two nodes: one arc may span up to 1.9 pi
+            ang = self._angles(n, a_start, rs, 0.9 if n == 2 else 0.7 if n > 3 else 0.4)
             cur.nodes = np.array([_pol(centre, r, t) for t in ang])
             cur.mids = []
             inner = r
             want_arc = rs.uniform(0, 1, n) < 0.6
-            fr = rs.uniform(0.25, 0.75, n)
+            # the middle control point is anywhere along the arc (5% .. 95% of the span, at least 0.08 rad from either end)
+            fr = rs.uniform(0.05, 0.95, n)
             gaps = [((ang[(i + 1) % n] - ang[i]) % (2 * math.pi)) for i in range(n)]
             if n == 2 or not want_arc.any():
                 want_arc[int(np.argmax(gaps))] = True
             for i in range(n):
                 g = gaps[i]
                 if want_arc[i] or g >= 0.9 * math.pi:
-                    cur.mids.append(_pol(centre, r, ang[i] + fr[i] * g))
+                    f = min(max(fr[i], 0.08 / g), 1.0 - 0.08 / g)
+                    cur.mids.append(_pol(centre, r, ang[i] + f * g))
                 else:
                     cur.mids.append(None)
                     inner = min(inner, r * math.cos(g / 2))
@@ -338,7 +343,7 @@ class Drawing:
             if kind == "bulge":
                 want = rs.uniform(0, 1, n) < 0.6
                 beta = rs.uniform(0.08, 0.6, n) * np.where(rs.uniform(0, 1, n) < 0.5, -1.0, 1.0)
-                fr = rs.uniform(0.25, 0.75, n)
+                fr = rs.uniform(0.05, 0.95, n)
                 for i in range(n):
                     if not want[i]:
                         continue
@@ -356,7 +361,8 @@ class Drawing:
                     ok = (np.diff(th) > 0.2 * gap / 48).all() and rr.max() <= 0.985 * R and rr.min() >= 0.75 * r_lo
                     if not ok:
                         continue
-                    cur.mids[i] = _pol(c, r, a0 + fr[i] * phi)
+                    f = min(max(fr[i], 0.08 / abs(phi)), 1.0 - 0.08 / abs(phi))
+                    cur.mids[i] = _pol(c, r, a0 + f * phi)
                     inner = min(inner, 0.98 * float(rr.min()))
             cur.inner = inner
         # children inside the disc (centre, 0.92 * inner)
